@@ -795,3 +795,451 @@ Section SortedTable.
   Qed.
 End SortedTable.
 Set Default Proof Using "Type".
+
+(* ------------------------------------------------------------------ *)
+(* _make_wfs_table                                                     *)
+(* ------------------------------------------------------------------ *)
+Lemma NoDup_map_filter {A B} (h : A -> B) g L : NoDup (map h L) -> NoDup (map h (filter g L)).
+Proof.
+  induction L as [|a L IH]; cbn; intros H; [constructor|].
+  inversion H as [|? ? Hn Hd]; subst.
+  destruct (g a); [|now apply IH]. cbn. constructor; [|now apply IH].
+  intros Hin. apply Hn. apply in_map_iff in Hin. destruct Hin as [x [Hx Hi]].
+  apply filter_In in Hi. apply in_map_iff. exists x. tauto.
+Qed.
+
+Lemma NoDup_app_intro {A} (a b : list A) : NoDup a -> NoDup b -> (forall x, In x a -> ~ In x b) ->
+  NoDup (a ++ b).
+Proof.
+  induction a as [|x a IH]; intros Ha Hb H; cbn; [exact Hb|].
+  inversion Ha; subst. constructor.
+  - rewrite in_app_iff. intros [Hi|Hi]; [contradiction|]. apply (H x); [now left|exact Hi].
+  - apply IH; auto. intros y Hy. apply H. now right.
+Qed.
+
+(* lists tagged by distinct keys, every element carrying its list's key *)
+Lemma NoDup_concat_key {E} (key : Z -> Z) (tag : E -> Z) (g : E -> list Z) (L : list E) :
+  NoDup (map tag L) -> (forall e, In e L -> NoDup (g e) /\ forall x, In x (g e) -> key x = tag e) ->
+  NoDup (concat (map g L)).
+Proof.
+  induction L as [|e L IH]; cbn; intros Hnd H; [constructor|].
+  inversion Hnd as [|? ? Hn Hd]; subst.
+  apply NoDup_app_intro.
+  - apply H. now left.
+  - apply IH; auto.
+  - intros x Hx Hc. apply in_concat in Hc. destruct Hc as [lx [Hlx Hxl]].
+    apply in_map_iff in Hlx. destruct Hlx as [e' [<- He']].
+    apply Hn. apply in_map_iff. exists e'. split; [|exact He'].
+    destruct (H e (or_introl eq_refl)) as [_ K1]. destruct (H e' (or_intror He')) as [_ K2].
+    rewrite <- (K1 x Hx), <- (K2 x Hxl). reflexivity.
+Qed.
+
+Lemma sorted_le_nodup_lt l : StronglySorted Z.le l -> NoDup l -> StronglySorted Z.lt l.
+Proof.
+  induction 1 as [|x l Hs IH Hx]; intros Hnd; constructor; inversion Hnd; subst; auto.
+  rewrite Forall_forall in *. intros y Hy. specialize (Hx y Hy).
+  assert (x <> y) by (intros ->; contradiction). lia.
+Qed.
+
+Lemma filter_id {A} (f : A -> bool) l : Forall (fun x => f x = true) l -> filter f l = l.
+Proof. induction 1 as [|x l Hx _ IH]; cbn; [reflexivity|]. now rewrite Hx, IH. Qed.
+
+Lemma filter_none {A} (f : A -> bool) l : Forall (fun x => f x = false) l -> filter f l = [].
+Proof. induction 1 as [|x l Hx _ IH]; cbn; [reflexivity|]. now rewrite Hx. Qed.
+
+Lemma count_if_map (f : Z -> bool) {A} (g : A -> Z) l :
+  count_if f (map g l) = zlen (filter (fun x => f (g x)) l).
+Proof.
+  unfold count_if, zlen. f_equal. induction l as [|x l IH]; cbn; [reflexivity|].
+  destruct (f (g x)); cbn; now rewrite IH.
+Qed.
+
+Lemma filter_concat_tag_none {E} (key : Z -> Z) (tag : E -> Z) (g : E -> list Z) (L : list E) u :
+  (forall e, In e L -> forall x, In x (g e) -> key x = tag e) ->
+  (forall e, In e L -> tag e <> u) ->
+  filter (fun x => key x =? u) (concat (map g L)) = [].
+Proof.
+  induction L as [|e L IH]; cbn; intros Hk Ht; [reflexivity|].
+  rewrite filter_app, IH by (intros; auto). rewrite app_nil_r.
+  apply filter_none. rewrite Forall_forall. intros x Hx.
+  rewrite (Hk e (or_introl eq_refl) x Hx). specialize (Ht e (or_introl eq_refl)). lia.
+Qed.
+
+Lemma filter_concat_tag_one {E} (key : Z -> Z) (tag : E -> Z) (g : E -> list Z) (L : list E) e :
+  NoDup (map tag L) -> (forall e, In e L -> forall x, In x (g e) -> key x = tag e) ->
+  In e L -> filter (fun x => key x =? tag e) (concat (map g L)) = g e.
+Proof.
+  induction L as [|e0 L IH]; cbn; intros Hnd Hk Hin; [contradiction|].
+  inversion Hnd as [|? ? Hn Hd]; subst. rewrite filter_app. destruct Hin as [->|Hin].
+  - rewrite (filter_concat_tag_none key tag g L (tag e)); auto.
+    + rewrite app_nil_r. apply filter_id. rewrite Forall_forall. intros x Hx.
+      rewrite (Hk e (or_introl eq_refl) x Hx). lia.
+    + intros e' He' Heq. apply Hn. rewrite <- Heq. now apply in_map.
+  - rewrite IH; auto. rewrite filter_none; [reflexivity|].
+    rewrite Forall_forall. intros x Hx. rewrite (Hk e0 (or_introl eq_refl) x Hx).
+    assert (tag e0 <> tag e) by (intros Heq; apply Hn; rewrite Heq; now apply in_map). lia.
+Qed.
+
+Section Table.
+  Variable choose : Z -> list Z -> Z -> list Z.
+  Variable P : cfg.
+  Notation sp := (c_spikes P).
+  Hypothesis Hsorted : StronglySorted Z.le (map sp_sample sp).
+  Hypothesis Hchoose : forall i a k, 0 <= k <= zlen a -> NoDup a ->
+    length (choose i a k) = Z.to_nat k /\ NoDup (choose i a k) /\ incl (choose i a k) a.
+  Hypothesis Hmax : 0 <= c_maxwf P.
+  Set Default Proof Using "Hsorted Hchoose Hmax".
+
+  Notation EN := (enumerate (unit_ids P)).
+  Notation picks := (unit_picks choose P).
+  Notation PK := (concat (map picks EN)).
+
+  Lemma usi_in u p : In p (unit_spikeidx P u) <->
+    0 <= p < zlen sp /\ sp_cluster (znth dspike sp p) = u /\ allowed P (sp_sample (znth dspike sp p)) = true.
+  Proof.
+    unfold unit_spikeidx. rewrite in_map_iff. split.
+    - intros [[q x] [Hq Hf]]. cbn in Hq. subst q. apply filter_In in Hf. destruct Hf as [Hin Hc].
+      apply (enumerate_in sp p x dspike) in Hin. destruct Hin as [Hr ->]. cbn in Hc.
+      apply andb_true_iff in Hc. unfold znth. split; [exact Hr|]. split; [lia|tauto].
+    - intros [Hr [Hc Ha]]. exists (p, znth dspike sp p). split; [reflexivity|].
+      apply filter_In. split; [apply enumerate_in_conv; exact Hr|]. cbn. rewrite Ha. lia.
+  Qed.
+
+  Lemma usi_nodup u : NoDup (unit_spikeidx P u).
+  Proof.
+    unfold unit_spikeidx. apply NoDup_map_filter. unfold enumerate.
+    rewrite map_fst_combine by now rewrite zrange_length. apply NoDup_zrange.
+  Qed.
+
+  Lemma unit_k_range u : 0 <= unit_k P u <= zlen (unit_spikeidx P u).
+  Proof. unfold unit_k. pose proof (zlen_nonneg (unit_spikeidx P u)). lia. Qed.
+
+  Lemma picks_spec e : length (picks e) = Z.to_nat (unit_k P (snd e)) /\ NoDup (picks e) /\
+                       incl (picks e) (unit_spikeidx P (snd e)).
+  Proof. unfold unit_picks. apply Hchoose; [apply unit_k_range|apply usi_nodup]. Qed.
+
+  Lemma unit_ids_nodup : NoDup (unit_ids P).
+  Proof.
+    unfold unit_ids, zunique. eapply Permutation_NoDup; [symmetry; apply isort_perm|]. apply NoDup_nodup.
+  Qed.
+
+  Lemma EN_snd : map snd EN = unit_ids P.
+  Proof. unfold enumerate. apply map_snd_combine. now rewrite zrange_length. Qed.
+
+  Lemma PK_nodup : NoDup PK.
+  Proof.
+    apply (NoDup_concat_key (fun x => sp_cluster (znth dspike sp x)) snd).
+    - rewrite EN_snd. apply unit_ids_nodup.
+    - intros e _. destruct (picks_spec e) as [_ [Hn Hi]]. split; [exact Hn|].
+      intros x Hx. apply Hi in Hx. apply usi_in in Hx. tauto.
+  Qed.
+
+  Lemma PK_in x : In x PK -> exists e, In e EN /\ In x (unit_spikeidx P (snd e)).
+  Proof.
+    intros H. apply in_concat in H. destruct H as [lx [Hl Hx]].
+    apply in_map_iff in Hl. destruct Hl as [e [<- He]]. exists e. split; [exact He|].
+    destruct (picks_spec e) as [_ [_ Hi]]. now apply Hi.
+  Qed.
+
+  Lemma pad_filter e : filter (fun x => 0 <=? x) (pad (picks e) (c_maxwf P) (-1)) = picks e.
+  Proof.
+    unfold pad. rewrite filter_app.
+    rewrite (filter_none _ (repeat (-1) _)); [rewrite app_nil_r|].
+    - apply filter_id. rewrite Forall_forall. intros x Hx.
+      destruct (picks_spec e) as [_ [_ Hi]]. apply Hi, usi_in in Hx. lia.
+    - rewrite Forall_forall. intros x Hx. apply repeat_spec in Hx. now subst.
+  Qed.
+
+  Lemma wf_idx_perm : Permutation (wf_idx choose P) PK.
+  Proof.
+    unfold wf_idx. rewrite (Permutation_filter _ _ _ (isort_perm Z.leb _)).
+    unfold unit_wf_idx. rewrite <- concat_filter_map, map_map.
+    erewrite map_ext; [reflexivity|]. intros e. apply pad_filter.
+  Qed.
+
+  Lemma wf_idx_nodup : NoDup (wf_idx choose P).
+  Proof. eapply Permutation_NoDup; [symmetry; apply wf_idx_perm|apply PK_nodup]. Qed.
+
+  Lemma wf_idx_increasing : StronglySorted Z.lt (wf_idx choose P).
+  Proof.
+    apply sorted_le_nodup_lt; [|apply wf_idx_nodup].
+    unfold wf_idx. apply StronglySorted_filter, zsort_sorted.
+  Qed.
+
+  (* every selected index is the position of a valid spike *)
+  Lemma wf_idx_valid x : In x (wf_idx choose P) ->
+    0 <= x < zlen sp /\ allowed P (sp_sample (znth dspike sp x)) = true.
+  Proof.
+    intros H. apply (Permutation_in _ wf_idx_perm) in H. apply PK_in in H.
+    destruct H as [e [_ Hx]]. apply usi_in in Hx. tauto.
+  Qed.
+
+  Notation sel := (map (znth dspike sp) (wf_idx choose P)).
+
+  Lemma table_eq : table choose P = mk_table sel.
+  Proof.
+    unfold table, mk_table. cbv zeta. rewrite enumerate_map, !map_map. reflexivity.
+  Qed.
+
+  Lemma sel_ascending : StronglySorted Z.le (map sp_sample sel).
+  Proof.
+    rewrite map_map.
+    assert (Hv : forall x, In x (wf_idx choose P) -> 0 <= x < zlen sp) by (intros x Hx; now apply wf_idx_valid).
+    pose proof wf_idx_increasing as Hinc. revert Hv.
+    induction Hinc as [|x l Hs IH Hx]; intros Hv; cbn; constructor.
+    - apply IH. intros y Hy. apply Hv. now right.
+    - rewrite Forall_map, Forall_forall. intros y Hy. rewrite Forall_forall in Hx. specialize (Hx y Hy).
+      pose proof (Hv x (or_introl eq_refl)) as Hxr. pose proof (Hv y (or_intror Hy)) as Hyr.
+      unfold zlen in *.
+      pose proof (sorted_le_nth _ Hsorted (Z.to_nat x) (Z.to_nat y)) as H. rewrite map_length in H.
+      specialize (H ltac:(lia)).
+      rewrite !(nth_map' sp_sample sp _ dspike 0) in H by lia. exact H.
+  Qed.
+
+  Lemma table_rows_are_spikes :
+    map (fun r => (r_sample r, r_cluster r, r_chan r)) (table choose P) = sel.
+  Proof.
+    rewrite table_eq. unfold mk_table. cbv zeta. rewrite map_map. cbn [r_sample r_cluster r_chan].
+    erewrite map_ext with (g := snd).
+    - unfold enumerate. apply map_snd_combine. now rewrite zrange_length.
+    - intros [k [[s c] ch]]. reflexivity.
+  Qed.
+
+  (* each unit receives min(max_wf, number of its valid spikes) rows *)
+  Lemma unit_counts u : In u (unit_ids P) ->
+    count_if (fun c => c =? u) (map r_cluster (table choose P)) =
+    Z.min (c_maxwf P) (zlen (unit_spikeidx P u)).
+  Proof.
+    intros Hu. rewrite <- EN_snd in Hu. apply in_map_iff in Hu. destruct Hu as [e [<- He]].
+    assert (Hc : map r_cluster (table choose P) =
+                 map (fun x => sp_cluster (znth dspike sp x)) (wf_idx choose P)).
+    { rewrite <- (map_map (znth dspike sp) sp_cluster), <- table_rows_are_spikes, map_map. reflexivity. }
+    rewrite Hc, count_if_map. unfold zlen.
+    rewrite (Permutation_length (Permutation_filter _ _ _ wf_idx_perm)).
+    rewrite (filter_concat_tag_one (fun x => sp_cluster (znth dspike sp x)) snd picks EN e).
+    - destruct (picks_spec e) as [Hl _]. rewrite Hl. pose proof (unit_k_range (snd e)).
+      rewrite Z2Nat.id by lia. reflexivity.
+    - rewrite EN_snd. apply unit_ids_nodup.
+    - intros e' _ x Hx. destruct (picks_spec e') as [_ [_ Hi]]. apply Hi, usi_in in Hx. tauto.
+    - exact He.
+  Qed.
+End Table.
+Set Default Proof Using "Type".
+
+(* ------------------------------------------------------------------ *)
+(* assembling: extract_wfs_cbin                                        *)
+(* ------------------------------------------------------------------ *)
+Definition set_size (P : cfg) (sz : Z) : cfg :=
+  mkCfg (c_ns P) (c_nc P) (c_to P) (c_L P) (c_maxwf P) sz (c_r2n P) (c_r2d P) (c_geom P) (c_spikes P).
+
+Lemma window_cell V (src : Z -> Z -> V) P s pc j t :
+  (j < length (znth [] (cidx P) pc))%nat -> 0 <= t < c_L P ->
+  nth (Z.to_nat t) (nth j (window V src P s pc) []) None =
+  let ch := nth j (znth [] (cidx P) pc) 0 in
+  if ch =? c_nc P then None else Some (src ch (s - c_to P + t)).
+Proof.
+  intros Hj Ht. unfold window, gather. cbv zeta.
+  rewrite (nth_map' _ _ j 0) by exact Hj.
+  rewrite (nth_map' _ _ (Z.to_nat t) 0) by (rewrite map_length, zrange_length; lia).
+  rewrite (nth_map' _ _ (Z.to_nat t) 0) by (rewrite zrange_length; lia).
+  rewrite nth_zrange by lia. rewrite Z2Nat.id by lia. reflexivity.
+Qed.
+
+Section Main.
+  Variable V : Type.
+  Variable src : Z -> Z -> V.
+  Variable choose : Z -> list Z -> Z -> list Z.
+  Variable P : cfg.
+  Notation sp := (c_spikes P).
+  Hypothesis Hns : 1 <= c_ns P.
+  Hypothesis Hsize : 1 <= c_size P.
+  Hypothesis Hto : 0 <= c_to P <= c_L P.
+  Hypothesis Hts : c_to P <= c_size P \/ nchunks P = 1.
+  Hypothesis Hsorted : StronglySorted Z.le (map sp_sample sp).
+  Hypothesis Hchoose : forall i a k, 0 <= k <= zlen a -> NoDup a ->
+    length (choose i a k) = Z.to_nat k /\ NoDup (choose i a k) /\ incl (choose i a k) a.
+  Hypothesis Hmax : 0 <= c_maxwf P.
+  Hypothesis Hchan : Forall (fun s => 0 <= sp_chan s < zlen (c_geom P)) sp.
+  Set Default Proof Using "Hns Hsize Hto Hts Hsorted Hchoose Hmax Hchan".
+
+  Notation T := (table choose P).
+  Notation ST := (sorted_table choose P).
+  Notation canon := (canon_write V src P).
+
+  Lemma table_row_spike r : In r T ->
+    exists x, In x (wf_idx choose P) /\
+      let s := znth dspike sp x in r_sample r = sp_sample s /\ r_cluster r = sp_cluster s /\ r_chan r = sp_chan s.
+  Proof.
+    intros Hr.
+    apply (in_map (fun r => (r_sample r, r_cluster r, r_chan r))) in Hr.
+    rewrite (table_rows_are_spikes choose P Hsorted Hchoose Hmax) in Hr.
+    apply in_map_iff in Hr. destruct Hr as [x [Hx Hin]]. exists x. split; [exact Hin|].
+    cbv zeta. rewrite Hx. cbn. auto.
+  Qed.
+
+  Lemma table_valid : Forall (valid_row P) T.
+  Proof.
+    rewrite Forall_forall. intros r Hr. destruct (table_row_spike r Hr) as [x [Hx [Hs [_ Hc]]]].
+    destruct (wf_idx_valid choose P Hsorted Hchoose Hmax x Hx) as [Hxr Ha].
+    unfold valid_row. rewrite Hs, Hc. unfold allowed in Ha. split; [lia|].
+    rewrite Forall_forall in Hchan. apply Hchan. unfold znth. apply nth_In. unfold zlen in Hxr. lia.
+  Qed.
+
+  Lemma table_ascending : StronglySorted Z.le (map r_sample T).
+  Proof.
+    replace (map r_sample T) with (map sp_sample (map (fun r => (r_sample r, r_cluster r, r_chan r)) T))
+      by (rewrite map_map; reflexivity).
+    rewrite (table_rows_are_spikes choose P Hsorted Hchoose Hmax).
+    apply sel_ascending; assumption.
+  Qed.
+
+  (* no assertion fires, no index is out of range, and the memmap receives, for every table row,
+     the window of that row at row waveform_index *)
+  Lemma traces_canon :
+    traces V src choose P = Some (apply_writes V (map canon T) (mem0 V T)).
+  Proof.
+    unfold traces. cbv zeta.
+    rewrite (all_writes_canon V src P Hns Hsize Hto Hts T table_ascending table_valid). reflexivity.
+  Qed.
+
+  Lemma table_keys_nodup : NoDup (map (fun e : Z * wf V => Z.to_nat (fst e)) (map canon T)).
+  Proof.
+    rewrite map_map. cbn [canon_write fst].
+    rewrite (table_eq choose P Hsorted Hchoose Hmax). apply mk_table_wfi_nodup. apply sel_ascending; assumption.
+  Qed.
+
+  Lemma table_length : length T = length (wf_idx choose P).
+  Proof. rewrite (table_eq choose P Hsorted Hchoose Hmax), mk_table_length. apply map_length. Qed.
+
+  Lemma sorted_row_wfi r : (r < length T)%nat -> r_wfi (nth r ST drow) = Z.of_nat r.
+  Proof.
+    intros Hr. unfold sorted_table. rewrite (table_eq choose P Hsorted Hchoose Hmax) in *. rewrite mk_table_length in Hr.
+    apply sorted_wfi_id; [apply sel_ascending; assumption|exact Hr].
+  Qed.
+
+  Lemma sorted_perm : Permutation ST T.
+  Proof. apply isort_perm. Qed.
+
+  (* row r of the traces file is the window of row r of the (sorted) table *)
+  Lemma traces_row r : (r < length T)%nat ->
+    exists mem, traces V src choose P = Some mem /\ length mem = length T /\
+      let row := nth r ST drow in
+      r_wfi row = Z.of_nat r /\ valid_row P row /\
+      nth r mem None = Some (window V src P (r_sample row) (r_chan row)).
+  Proof.
+    intros Hr. eexists. split; [apply traces_canon|].
+    split; [rewrite aw_length; unfold mem0; apply repeat_length|].
+    cbv zeta. set (row := nth r ST drow).
+    assert (Hin : In row T).
+    { eapply Permutation_in; [apply sorted_perm|]. apply nth_In.
+      now rewrite (Permutation_length sorted_perm). }
+    pose proof (sorted_row_wfi r Hr) as Hw. fold row in Hw.
+    split; [exact Hw|]. split; [pose proof table_valid as Hv; rewrite Forall_forall in Hv; now apply Hv|].
+    pose proof (aw_nth_in V (map canon T) (mem0 V T) (canon row) table_keys_nodup (in_map canon _ _ Hin)) as H.
+    cbn [canon_write fst snd] in H. rewrite Hw, Nat2Z.id in H. apply H.
+    unfold mem0. rewrite repeat_length. exact Hr.
+  Qed.
+
+  (* any schedule of the individual row writes of all the jobs gives the same file *)
+  Lemma schedule_independent sched : Permutation sched (map canon T) ->
+    Some (apply_writes V sched (mem0 V T)) = traces V src choose P.
+  Proof.
+    intros Hp. rewrite traces_canon. f_equal. apply writes_commute; [apply table_keys_nodup|exact Hp].
+  Qed.
+End Main.
+Set Default Proof Using "Type".
+
+(* the result does not depend on the chunk size *)
+Lemma chunk_size_independent V (src : Z -> Z -> V) choose P sz sz' :
+  1 <= c_ns P -> 0 <= c_to P <= c_L P -> 1 <= sz -> 1 <= sz' -> c_to P <= sz -> c_to P <= sz' ->
+  StronglySorted Z.le (map sp_sample (c_spikes P)) ->
+  (forall i a k, 0 <= k <= zlen a -> NoDup a ->
+    length (choose i a k) = Z.to_nat k /\ NoDup (choose i a k) /\ incl (choose i a k) a) ->
+  0 <= c_maxwf P -> Forall (fun s => 0 <= sp_chan s < zlen (c_geom P)) (c_spikes P) ->
+  traces V src choose (set_size P sz) = traces V src choose (set_size P sz').
+Proof.
+  intros Hns Hto H1 H2 H3 H4 Hs Hc Hm Hch.
+  rewrite (traces_canon V src choose (set_size P sz) Hns H1 Hto (or_introl H3) Hs Hc Hm Hch).
+  rewrite (traces_canon V src choose (set_size P sz') Hns H2 Hto (or_introl H4) Hs Hc Hm Hch).
+  reflexivity.
+Qed.
+
+(* ------------------------------------------------------------------ *)
+(* make_channel_index                                                  *)
+(* ------------------------------------------------------------------ *)
+Lemma zrange_ssorted n : StronglySorted Z.lt (zrange n).
+Proof.
+  induction n as [|n IH]; [constructor|]. rewrite zrange_S.
+  assert (H : forall l x, StronglySorted Z.lt l -> Forall (fun y => y < x) l -> StronglySorted Z.lt (l ++ [x])).
+  { induction l as [|y l IHl]; intros x Hs Hf; cbn; [repeat constructor|].
+    inversion Hs; inversion Hf; subst. constructor; [now apply IHl|].
+    rewrite Forall_app. split; [assumption|repeat constructor; assumption]. }
+  apply H; [exact IH|]. rewrite Forall_forall. intros y Hy. apply in_zrange in Hy. lia.
+Qed.
+
+Lemma near_sym g r2n r2d c j : near g r2n r2d c j = near g r2n r2d j c.
+Proof. unfold near, dist2. f_equal. f_equal. ring. Qed.
+
+Lemma zmax_list_ge l x : In x l -> x <= zmax_list l.
+Proof.
+  unfold zmax_list. induction l as [|y l IH]; cbn [In fold_right]; [intros []|intros [->|H]]; [lia|].
+  specialize (IH H). lia.
+Qed.
+
+Lemma nbr_row_le_n_nbors g r2n r2d c : 0 <= c < zlen g -> zlen (nbr_row g r2n r2d c) <= n_nbors g r2n r2d.
+Proof.
+  intros Hc. unfold n_nbors. apply zmax_list_ge. apply in_map_iff. exists c. split.
+  - unfold col_sum, nbr_row. f_equal. apply filter_ext. intros j. apply near_sym.
+  - unfold chans. apply in_zrange. exact Hc.
+Qed.
+
+(* row c: the channels within the radius in ascending order, then pad_val, n_nbors columns *)
+Lemma channel_index_row g r2n r2d padv c : 0 <= c < zlen g ->
+  let row := znth [] (channel_index g r2n r2d padv) c in
+  let nb := nbr_row g r2n r2d c in
+  row = nb ++ repeat padv (Z.to_nat (n_nbors g r2n r2d - zlen nb)) /\
+  zlen row = n_nbors g r2n r2d /\
+  StronglySorted Z.lt nb /\
+  (forall j, In j nb <-> 0 <= j < zlen g /\
+     dist2 (znth (0, 0) g c) (znth (0, 0) g j) * r2d <= r2n).
+Proof.
+  intros Hc row nb. unfold zlen in Hc.
+  assert (Er : row = pad nb (n_nbors g r2n r2d) padv).
+  { unfold row, channel_index, znth, chans. cbv zeta.
+    rewrite (nth_map' _ _ _ 0) by (rewrite zrange_length; lia).
+    rewrite nth_zrange by lia. rewrite Z2Nat.id by lia. reflexivity. }
+  split; [exact Er|]. split.
+  - rewrite Er. unfold pad, zlen. rewrite app_length, repeat_length.
+    pose proof (nbr_row_le_n_nbors g r2n r2d c ltac:(unfold zlen; lia)) as H. fold nb in H.
+    unfold zlen in H. lia.
+  - split.
+    + unfold nb, nbr_row. apply StronglySorted_filter, zrange_ssorted.
+    + intros j. unfold nb, nbr_row, chans. rewrite filter_In, in_zrange. unfold near, zlen.
+      rewrite Z.leb_le. reflexivity.
+Qed.
+
+Section ChanMap.
+  Variable choose : Z -> list Z -> Z -> list Z.
+  Variable P : cfg.
+
+  Lemma chan_row_valid pc : 0 <= pc < zlen (c_geom P) -> zlen (c_geom P) <= 32768 ->
+    chan_row (cidx P) (to_int16 pc) = Some (znth [] (cidx P) pc).
+  Proof.
+    intros Hpc Hn. unfold to_int16. rewrite Z.mod_small by lia.
+    replace (pc + 32768 - 32768) with pc by lia.
+    unfold chan_row.
+    assert (Hz : zlen (cidx P) = zlen (c_geom P)).
+    { unfold cidx, channel_index, chans, zlen. cbv zeta. now rewrite map_length, zrange_length. }
+    rewrite Hz. unfold wrap_index.
+    assert (E : (0 <=? pc) && (pc <? zlen (c_geom P)) = true) by lia. now rewrite E.
+  Qed.
+
+  Lemma chan_map_canon : zlen (c_geom P) <= 32768 ->
+    Forall (valid_row P) (table choose P) ->
+    chan_map choose P = Some (map (fun r => znth [] (cidx P) (r_chan r)) (sorted_table choose P)).
+  Proof.
+    intros Hn Hv. unfold chan_map. cbv zeta. apply sequence_map_some.
+    intros r Hr. apply chan_row_valid; [|exact Hn].
+    rewrite Forall_forall in Hv. apply Hv. eapply Permutation_in; [apply isort_perm|exact Hr].
+  Qed.
+End ChanMap.
